@@ -416,9 +416,11 @@ class Scheduler(object):
 class SimLock(object):
     """Drop-in for threading.Lock whose blocking is visible to the scheduler."""
 
-    def __init__(self, sched, name="lock"):
+    def __init__(self, sched, name="lock", reentrant=False):
         self.sched = sched
         self.name = name
+        self.reentrant = reentrant
+        self.depth = 0
         self.owner = None
         self.waiters = []
         self.acquisitions = 0
@@ -430,6 +432,9 @@ class SimLock(object):
         if me is None:          # outside the simulation: behave as a free lock
             return True
         s.yield_point("lock:acquire:" + self.name)
+        if self.owner is me and self.reentrant:
+            self.depth += 1
+            return True
         while self.owner is not None:
             if not blocking:
                 return False
@@ -437,6 +442,7 @@ class SimLock(object):
             self.waiters.append(me)
             s.block(self.name)
         self.owner = me
+        self.depth = 1
         self.acquisitions += 1
         return True
 
@@ -445,6 +451,10 @@ class SimLock(object):
         me = s.current()
         if me is None:
             return
+        if self.reentrant and self.depth > 1:
+            self.depth -= 1
+            return
+        self.depth = 0
         self.owner = None
         ws, self.waiters = self.waiters, []
         for w in ws:
